@@ -45,9 +45,10 @@ def recipe(kind, p, t, rng, nvar, fam, local=True):
                          for pp, tt in vs]}
 
 
-def battery(m, kind):
-    """Operations that return NEW objects; results are discarded.  Afterwards the tables of `m` itself must still
-    agree with its cell list (a stale or corrupted cache / an operand written in place shows here)."""
+def battery(m, kind, derived=None):
+    """Operations that return NEW objects.  Afterwards the tables of `m` itself must still agree with its cell list
+    (a stale or corrupted cache / an operand written in place shows here), and the tables of the RESULTS (built while
+    the operand's lazy tables are already filled) must agree with the results' own cell lists (`derived` collects them)."""
     import numpy as np
     ops = [lambda: m.refined(), lambda: m.restrict(np.array([0])), lambda: m.translated((1.,) * m.p.shape[0]),
            lambda: m.scaled((2.,) * m.p.shape[0]), lambda: m.with_subdomains({'s': np.array([0])}),
@@ -64,7 +65,13 @@ def battery(m, kind):
         ops += [lambda: m.to_meshtet()]
     for op in ops:
         try:
-            op()
+            r = op()
+            if derived is not None and r is not None and hasattr(r, 't') and r.t.shape[1] <= 40 \
+                    and type(r).__name__ in ('MeshLine1', 'MeshTri1', 'MeshQuad1', 'MeshTet1', 'MeshHex1'):
+                ev = conn_event(r, with_coords=False)
+                ev['ni'] = 0
+                ev['tags'] = {'phase': 'derived-result'}
+                derived.append(ev)
         except Exception:        # the operations themselves are judged by C12/C13/C18
             pass
 
@@ -121,7 +128,7 @@ def execute_constructor(rec):
     if err:
         ev = {'a': 'Conn', 'kind': rec['kind'], 'err': err, 'nv': 0, 't': [], 'lf': [], 'le': [], 'lfe': [], 'facets': [],
               't2f': [], 'f2t': [], 'bfacets': [], 'bnodes': [], 'inodes': [], 'p2f': [], 'p2t': [], 'edges': [],
-              't2e': [], 'f2e': [], 'bedges': [], 'p2e': [], 'e2t': [], 'errs': [], 'p': [], 'scale': 0}
+              't2e': [], 'f2e': [], 'bedges': [], 'p2e': [], 'e2t': [], 'errs': [], 'p': [], 'scale': 0, 'ni': 1}
     return [ev]
 
 
@@ -136,20 +143,24 @@ def execute(rec):
             m = U.make(kind, v['p'], v['t'])
             ev1 = conn_event(m, with_coords=True, scale=1)
             if j == 0 and rec.get('battery', True):
-                battery(m, kind)
+                extra = []
+                battery(m, kind, extra if rec.get('family') in ('U2t', 'U2q', 'U3t', 'U3h', 'U1') and len(v['t'][0]) <= 6 else None)
+                ev1['derived'] = extra
                 # same object, after operations that must not touch it; err/shape problems are judged by the clauses
                 ev1['again'] = conn_event(m, with_coords=True, scale=1)
             return ev1
         ev, err = guarded(call, 60)
         again = ev.pop('again', None) if isinstance(ev, dict) else None
+        derived = ev.pop('derived', []) if isinstance(ev, dict) else []
         if err:
             ev = {'a': 'Conn', 'kind': kind, 'err': err, 'nv': 0, 't': [], 'lf': [], 'le': [], 'lfe': [], 'facets': [],
                   't2f': [], 'f2t': [], 'bfacets': [], 'bnodes': [], 'inodes': [], 'p2f': [], 'p2t': [], 'edges': [],
-                  't2e': [], 'f2e': [], 'bedges': [], 'p2e': [], 'e2t': [], 'errs': [], 'p': [], 'scale': 0}
+                  't2e': [], 'f2e': [], 'bedges': [], 'p2e': [], 'e2t': [], 'errs': [], 'p': [], 'scale': 0, 'ni': 1}
         events.append(ev)
         if again is not None:
             again['tags'] = {'phase': 'after-operations'}
             events.append(again)
+        events.extend(derived[:4] if rec.get('family') != 'TLC-universe' else derived[:2])
     return events
 
 
